@@ -574,6 +574,25 @@ pub fn scenarios() -> Vec<Scenario>
 			});
 		}
 	}
+	// (5) import paths: an import names a file by its path as given, or relative to the directory of
+	// the importing file; nothing else
+	{
+		// constants, not functions: two files that define the same function cannot be linked
+		let lib = |v: i32| format!("pub const VALUE: i32 = {v};\n");
+		let main = |import: &str| format!("import \"{import}\";\n\nfn main() -> u8\n{{\n\tprint!(\"v=\", VALUE, \"\\n\");\n\treturn: 0\n}}\n");
+		let mut add = |name: &str, files: Vec<(&str, String)>, expect: Expect| {
+			out.push(Scenario { name: name.to_string(), class: "import paths", files: files.into_iter().map(|(n, t)| (n.to_string(), t)).collect(), expect });
+		};
+		add("import of a file that only exists in a sub-directory", vec![("main.pn", main("util.pn")), ("lib/util.pn", lib(1))], Expect::Reject);
+		add("import of a file that only exists in a deeper sub-directory of the importer's directory", vec![("d/main.pn", main("x.pn")), ("d/sub/x.pn", lib(2))], Expect::Reject);
+		add("same file name next to the importer and in a sub-directory", vec![("d/main.pn", main("x.pn")), ("d/x.pn", lib(1)), ("d/sub/x.pn", lib(2))], Expect::Accept("v=1\n".to_string()));
+		add("same file name in the sub-directory, imported with its relative path", vec![("d/main.pn", main("sub/x.pn")), ("d/x.pn", lib(1)), ("d/sub/x.pn", lib(2))], Expect::Accept("v=2\n".to_string()));
+		add("same relative path below another directory", vec![("main.pn", main("a/x.pn")), ("a/x.pn", lib(1)), ("b/a/x.pn", lib(2))], Expect::Accept("v=1\n".to_string()));
+		add("same file name in a sibling directory", vec![("a/main.pn", main("x.pn")), ("a/x.pn", lib(1)), ("b/x.pn", lib(2))], Expect::Accept("v=1\n".to_string()));
+		add("import by the path as given on the command line", vec![("main.pn", main("d/x.pn")), ("d/x.pn", lib(1)), ("x.pn", lib(2))], Expect::Accept("v=1\n".to_string()));
+		add("file name that is a suffix of another file name", vec![("main.pn", main("x.pn")), ("x.pn", lib(1)), ("ax.pn", lib(2)), ("d/x.pn", lib(3))], Expect::Accept("v=1\n".to_string()));
+		add("import of a directory name", vec![("main.pn", main("d")), ("d/x.pn", lib(1))], Expect::Reject);
+	}
 	// (3) private items of every kind referenced from the importer
 	let privates: [(&str, &str, &str); 5] = [
 		("fn", "fn v() -> i32\n{\n\treturn: 1\n}\n", "v()"),
